@@ -333,6 +333,8 @@ impl<Db: Database> StorageManager<Db> {
         &self,
         id: &St::StorageKey,
     ) -> Result<DbRecord, StorageError> {
+        #[cfg(akd_verif)]
+        crate::verif_hooks::sim_point("get").await;
         if let Some(cache) = &self.cache {
             if let Some(result) = cache.hit_test::<St>(id).await {
                 return Ok(result);
